@@ -1,5 +1,5 @@
 (** Correspondence for the scope family: Scope/Interp.v vs the real ScopeManager. *)
-From Selene Require Export Corr.Common Scope.Interp Scope.Zones Lints.ScopeLints.
+From Selene Require Export Corr.Common Scope.Interp Scope.Zones Lints.ScopeLints Scope.Fragment.
 
 Record iref := { i_range : range; i_name : string; i_read : bool; i_write : option wkind;
                  i_resolved : option range; i_initial : bool }.
@@ -15,7 +15,7 @@ Inductive case :=
 | CScopePanic (chunk : block).
 
 Definition var_ident (s : st) (id : N) : range :=
-  match nth_error (vars s) (N.to_nat id) with Some v => t_range (v_tok v) | None => (0, 0)%N end.
+  match nth_error (Interp.vars s) (N.to_nat id) with Some v => t_range (v_tok v) | None => (0, 0)%N end.
 Definition ref_ident (s : st) (id : N) : range :=
   match nth_error (refs s) (N.to_nat id) with Some r => t_range (r_tok r) | None => (0, 0)%N end.
 
@@ -50,7 +50,7 @@ Definition check_case (c : case) : N * N :=
   | CScope chunk irefs ivars roots undefined shadowing unused =>
       let corr :=
         match scope_manager chunk with
-        | Some s => list_eqb2 (ref_eqb s) (refs s) irefs && list_eqb2 (var_eqb s) (vars s) ivars
+        | Some s => list_eqb2 (ref_eqb s) (refs s) irefs && list_eqb2 (var_eqb s) (Interp.vars s) ivars
                     && list_eqb2 Interp.range_eq (undefined_report s roots) undefined
                     && list_eqb2 (fun a b => Interp.range_eq (fst a) (fst b) && Interp.range_eq (snd a) (snd b))
                                  (shadowing_report s) shadowing
@@ -64,9 +64,15 @@ Definition check_case (c : case) : N * N :=
       let captured := fun r => existsb (fun v => Zones.range_eq (iv_range v) r
                                                  && match iv_refs v with [] => false | _ => true end) ivars in
       let z2 := c02_zone os ds roots unused captured in
-      ((bit (negb corr) 1 + N.lor (fst z1) (N.lor (fst z2) (fst z3)))%N,
+      (* hypotheses of theorem C01_never_reports_locals: token ranges are pairwise distinct (bit 2 when
+         violated); whether the program lies in the fragment the theorem covers is reported in bit 2^40
+         of the second component (informational, not a class) *)
+      let ranges := map (fun o => t_range (o_tok o)) os in
+      let distinct := (fix nd (l : list range) : bool :=
+                         match l with [] => true | r :: rest => negb (existsb (Zones.range_eq r) rest) && nd rest end) ranges in
+      ((bit (negb corr) 1 + bit (negb distinct) 2 + N.lor (fst z1) (N.lor (fst z2) (fst z3)))%N,
        (* known-class masks per property: C01 in bits 0-9, C02 in bits 10-19, C03 in bits 20-29 *)
-       (snd z1 + 1024 * snd z2 + 1048576 * snd z3)%N)
+       (snd z1 + 1024 * snd z2 + 1048576 * snd z3 + bit (ok_block chunk) 1099511627776)%N)
   | CScopePanic chunk =>
       match scope_manager chunk with Some _ => (1%N, 0%N) | None => (0%N, 0%N) end
   end.
